@@ -22,6 +22,7 @@ def main(argv=None):
         seed = 0
     prop = args.prop.upper()
     t0 = time.time()
+    core._TIER['tier'] = args.tier
     core.quiet_library()
     try:
         mod = importlib.import_module('vf.checks.' + prop.lower())
@@ -29,8 +30,14 @@ def main(argv=None):
         if not os.path.abspath(cardutil.__file__).startswith(os.path.abspath(core.REPO) + os.sep):
             raise core.Broken('cardutil imported from %s, not from %s' % (cardutil.__file__, core.REPO))
         if args.replay:
+            import signal
             rec = json.load(open(args.replay))
-            case = rec['case']
+            case = rec.get('case')
+            signal.signal(signal.SIGPROF, core._on_prof)
+            signal.setitimer(signal.ITIMER_PROF, core.task_cpu_limit(args.tier))
+            if case is None:
+                print('this replay file records a whole-check time-out; re-run: %s' % rec.get('replay_cmd'))
+                return 1
             if isinstance(case, dict) and 'task_index' in case and hasattr(mod, 'tasks'):
                 ts = mod.tasks(case['tier'], case['seed'])
                 acc = core.safe_task(mod.run_task, prop, case['tier'], case['seed'])(
@@ -64,6 +71,20 @@ def main(argv=None):
                     (case['task_index'], ts[case['task_index']]))
             return mod.replay_case(case)
         return core.finish(mod, args.tier, seed, acc, desc, t0, replay_fn=replay, extra_cov=extra)
+    except core.TaskTimeout:
+        print('VIOLATION property=%s replay=%s' % (prop, args.replay))
+        print('  sig=%s.no_termination observed=the replayed case did not finish within the CPU limit' % prop.lower())
+        return 1
+    except core.TaskHang as ex:
+        # a task outside the per-task wrapper (BFS expansion) ran into the CPU watchdog: the code under test loops
+        os.makedirs(os.path.join(core.VERIF, 'replays'), exist_ok=True)
+        path = os.path.join(core.VERIF, 'replays', '%s-hang.json' % prop)
+        with open(path, 'w') as f:
+            json.dump({'property': prop, 'sig': prop.lower() + '.no_termination', 'tier': args.tier, 'seed': seed,
+                       'observed': str(ex), 'replay_cmd': './check %s --tier %s' % (prop, args.tier)}, f, indent=1)
+        print('VIOLATION property=%s replay=%s' % (prop, path))
+        print('  sig=%s.no_termination observed=%s' % (prop.lower(), ex))
+        return 1
     except core.Broken as ex:
         print('BROKEN-CHECK property=%s: %s' % (prop, ex))
         return 2
